@@ -90,6 +90,10 @@ func sqlC06(args []string) error {
 		if err != nil {
 			return err
 		}
+		if sc%6 == 5 {
+			s.emptiedPages(rng, sc)
+			continue
+		}
 		t := randSchema(rng, fmt.Sprintf("t%d", sc))
 		s.create(t)
 		maxRank := NRanks
@@ -166,4 +170,55 @@ func sqlC06(args []string) error {
 		}
 	}
 	return tw.Close()
+}
+
+// emptiedPages: a heap of several pages filled in key order (about 12 rows of 300 bytes per page), from which whole
+// runs of consecutive keys - at least one complete page in the middle of the chain - are deleted (committed, or rolled
+// back and deleted again); the remaining rows are then asked for through the sequential scan (OR predicates) and
+// through the index, updated through a sequential scan, and the space is used again.
+func (s *sqlRun) emptiedPages(rng *rand.Rand, sc int) {
+	t := &tableDef{name: fmt.Sprintf("ep%d", sc), cols: []string{"wint", "varchar"}, names: []string{"k", "p"},
+		kinds: []string{"skiplist", "none"}}
+	s.createAPI(t)
+	n := 60 + rng.Intn(40)
+	for k := 0; k < n; k += 5 {
+		rows := [][]int{}
+		for j := k; j < k+5 && j < n; j++ {
+			rows = append(rows, []int{j, NRanks - 1})
+		}
+		s.insert(t, rows, nil)
+	}
+	s.scan(t)
+	look := func() {
+		s.scan(t)
+		s.selectQ(t, atom(0, ">=", 0), nil, false)                                         // index range scan
+		s.selectQ(t, or(atom(0, "<", n/3), atom(0, ">", n/2)), []int{0}, false)             // sequential scan
+		s.selectQ(t, or(atom(1, "=", NRanks-1), atom(1, "=", 0)), []int{1, 0}, false)       // sequential scan, every row
+		s.selectQ(t, and(atom(0, ">=", n/4), atom(0, "<=", 3*n/4)), []int{0}, false)        // index, bounded
+	}
+	for round := 0; round < 3 && !s.dead; round++ {
+		a := rng.Intn(n - 30)
+		b := a + 14 + rng.Intn(26) // 15 .. 40 consecutive keys: more than one page
+		rolledBack := rng.Intn(3) == 0
+		if rolledBack {
+			s.begin()
+		}
+		s.delete(t, and(atom(0, ">=", a), atom(0, "<=", b)))
+		if rolledBack {
+			look()
+			s.endTxn(false)
+		}
+		look()
+		if rng.Intn(2) == 0 { // rows come back: the space of the emptied pages is used again
+			rows := [][]int{}
+			for j := 0; j < 3+rng.Intn(8); j++ {
+				rows = append(rows, []int{a + j, rng.Intn(NRanks)})
+			}
+			s.insert(t, rows, nil)
+			look()
+		}
+		// an update through the sequential scan over the chain with the emptied page
+		s.update(t, [][2]int{{1, rng.Intn(3)}}, or(atom(0, "<", a), atom(0, ">", b)))
+		look()
+	}
 }
